@@ -551,6 +551,15 @@ func genFiles(t *tape.Tape) *c13Case {
 				}
 			}
 		}
+		// a directory named exactly like the wanted file
+		if t.Chance(1, 8) && !have[path.Join(d, "mod.yang")] {
+			p := path.Join(d, "mod.yang", "inner2.yang")
+			if !have[p] {
+				have[p] = true
+				have[path.Join(d, "mod.yang")] = true // (no file of that name any more)
+				c.Files = append(c.Files, fileSpec{Path: p, Module: "inner2"})
+			}
+		}
 		// a directory named like a candidate
 		if t.Chance(1, 10) {
 			p := path.Join(d, "mod@2030-01-01.yang", "inner.yang")
